@@ -2035,23 +2035,23 @@ CLAUSES = [
     Clause('history', oracle_history, history_cases, quick=3300, thorough=100000,
            min_share={'nt': 0.18, 'ext_then_write': 0.17, 'ptype_after_growth': 0.07, 'scaled_ext': 0.007, 'type_growth': 0.2,
                       'idx:-1': 0.09, 'idx:empty': 0.13, 'idx:mask': 0.17, 'idx:repeat': 0.09, 'idx:step': 0.11,
-                      'selfset_overlap': 0.07, 'adopt_sub': 0.09, 'probe_get_copy': 0.17, 'probe_extract_copy': 0.12,
+                      'selfset_overlap': 0.058, 'adopt_sub': 0.09, 'probe_get_copy': 0.17, 'probe_extract_copy': 0.12,
                       'probe_prop_set_copy': 0.09, 'refusal': 0.24, 'ext:superset': 0.035, 'ext:subset': 0.03, 'ext:overlap': 0.09,
                       'len>=20': 0.11, 'scaled_get': 0.07, 'scaled_atoms_set': 0.05, 'ptype_one_newkey': 0.03,
                       'rd:permuted': 0.4, 'rd:quiet': 0.4, 'rd:subset': 0.33, 'rd:mas_first': 0.25, 'rd:nty_first': 0.22,
-                      'rd:mas_first_after_inplace_growth': 0.018, 'rd:nty_first_after_inplace_growth': 0.015,
-                      'rd:quiet_after_inplace_growth': 0.08, 'pad_uncertain': 0.012,
+                      'rd:mas_first_after_inplace_growth': 0.017, 'rd:nty_first_after_inplace_growth': 0.01,
+                      'rd:quiet_after_inplace_growth': 0.072, 'pad_uncertain': 0.012,
                       'af:int': 0.22, 'af:int:narrow': 0.16, 'af:int:unsigned': 0.1, 'af:int:bool': 0.02, 'af:int:pyint': 0.035,
                       'af:int:int64': 0.045, 'af:int:float_as_not64': 0.16, 'scaled_atoms_set_inttyped': 0.012,
-                      'scaled_atoms_set_int_not64': 0.009, 'af:noncontig': 0.14, 'af:npscalar': 0.2, 'af:readonly': 0.19, 'af:tuple': 0.2,
+                      'scaled_atoms_set_int_not64': 0.009, 'af:noncontig': 0.14, 'af:npscalar': 0.18, 'af:readonly': 0.16, 'af:tuple': 0.2,
                       # cross-pollinated classes (half of the smallest share seen at seeds 1-4)
                       'ledger': 0.4, 'ledger:array': 0.33, 'ledger:atoms': 0.39, 'ledger:list': 0.078, 'ledger:across_objects': 0.35,
                       'side:operand': 0.33, 'side:write': 0.31, 'side:defaults': 0.33,
                       'in_unchanged': 0.5, 'mut:in': 0.39, 'mut:in:atoms': 0.23, 'mut:reuse': 0.09,
                       'af:narrow': 0.12, 'af:narrow:float32': 0.04, 'af:narrow:float16': 0.017, 'af:narrow:bigendian': 0.1,
                       'sd': 0.11, 'sd:bigendian': 0.055, 'sd:native': 0.047, 'refuse:atype0:typed': 0.029, 'refuse:atype0:unsigned': 0.006,
-                      'vm:tiny': 0.19, 'vm:dec': 0.19, 'dec:8': 0.069, 'dec:8:scaled': 0.013, 'scaled_get_rowwise': 0.017, 'near:box': 0.033,
-                      'idx:perm': 0.23, 'idx:perm:identity': 0.066, 'idx:perm:reverse': 0.061, 'idx:perm:cyclic': 0.069,
+                      'vm:tiny': 0.19, 'vm:dec': 0.19, 'dec:8': 0.069, 'dec:8:scaled': 0.012, 'scaled_get_rowwise': 0.017, 'near:box': 0.033,
+                      'idx:perm': 0.23, 'idx:perm:identity': 0.066, 'idx:perm:reverse': 0.061, 'idx:perm:cyclic': 0.064,
                       'selfset_perm': 0.1, 'selfset_perm_moves': 0.042, 'ext:same_order': 0.035, 'ext:reversed_order': 0.03,
                       'opt:aid_scaled_set': 0.054, 'opt:aid_atoms_set': 0.05, 'opt:aid_atoms_set_scaled': 0.0148},
            desc='edit histories on one System/Atoms pair against a record-per-atom model: rectangular, row-aligned, model-equal, '
